@@ -362,8 +362,9 @@ def plan_for(prop, tier, seed):
                     [a + b + c for a in "abcdef" for b in "abcdef" for c in "abcdef"]), *fams)
         # the statistics must not depend on the value type: zero-sized, 1-byte and 16-byte values change the size of an
         # output record (8 / 12 / 32 bytes) but not what the states need
-        # (two 120-byte patterns over distinct bytes: 241 states in one 256-slot block, so the 12-bytes-per-state bound is tight)
-        long2 = [bytes(range(1, 121)), bytes(range(130, 250))]
+        # (six 200-byte patterns with distinct first bytes: 1201 states, a densely filled table, so that the
+        # 12-bytes-per-state bound is tight: 8 bytes per slot would already be too few)
+        long2 = [bytes((j * 7 + i * 37) % 251 + 1 for j in range(200)) for i in range(6)]
         for t in ("Empty", "u8", "u128"):
             P.add(Entry("bw_stat_%s" % t.lower(), "bytewise", "standard", long2, vtype=t), "T6")
             P.add(Entry("cw_stat_%s" % t.lower(), "charwise", "standard", corpus.cw_fixed()["w123"], vtype=t), "T6")
